@@ -219,6 +219,18 @@ impl Prop for C20 {
                     if regs(&back) != regs(&hu) {
                         return e("hex-roundtrip", String::new());
                     }
+                    // a cleared sketch is the empty sketch again, and behaves like a new one when reused
+                    let mut recycled = back;
+                    recycled.clear();
+                    if regs(&recycled) != regs(&Hll8::new()) || recycled.estimate_count() != 0 {
+                        return e("clear-leaves-state", diff_regs(&regs(&recycled), &regs(&Hll8::new())));
+                    }
+                    for x in a.iter() {
+                        recycled.add_element(x, offset).map_err(|x| ("add-failed".to_string(), x.to_string()))?;
+                    }
+                    if regs(&recycled) != regs(&ha) {
+                        return e("recycled-sketch-differs-from-new", String::new());
+                    }
                     let est = hu.estimate_count();
                     if u.is_empty() && est != 0 {
                         return e("empty-estimate-nonzero", format!("{est}"));
